@@ -5,3 +5,4 @@ import NibiruModel.Inflation
 import NibiruModel.Oracle
 import NibiruModel.OracleVotes
 import NibiruModel.TokenFactory
+import NibiruModel.Sudo
